@@ -5,6 +5,7 @@ import (
 	"encoding/json"
 	"errors"
 	"fmt"
+	"io"
 	"os"
 	"runtime"
 	"strings"
@@ -71,7 +72,6 @@ type sigWorld struct {
 	atCall   [][]string // trailing signals to send from inside the k-th call (index k, 0 = before the first call is recorded)
 	dropped  int
 	c        chan<- os.Signal
-	svcErr   []error
 }
 
 type fakeSvc struct {
@@ -101,13 +101,54 @@ func (s *fakeSvc) Shutdown(_ context.Context) error {
 	}
 	oc := w.outcome[s.i-1]
 	w.mu.Unlock()
-	switch oc {
-	case "err":
-		return w.svcErr[s.i-1]
-	case "panic":
-		panic(fmt.Sprintf("service %d panics in Shutdown", s.i))
+	err, pv, panics, herr := outcomeOf(oc, s.i)
+	if herr != nil {
+		panic(herr)
 	}
-	return nil
+	if panics {
+		panic(pv)
+	}
+	return err
+}
+
+// allKinds is the alphabet of outcome kinds of SignalHandler.tla.
+var allKinds = []string{"nil", "err", "deadline", "canceled", "wdeadline", "wcanceled", "join", "eof",
+	"panic", "panicerr", "panicdl", "panicnil"}
+
+// outcomeOf concretises an outcome kind of the specification for service i:
+// the error Shutdown returns, or the value it panics with.  The kinds are
+// data the code under test might inspect (errors.Is against the context
+// errors, type switches on the recovered value); the specification's
+// requirement does not depend on them.
+func outcomeOf(kind string, i int) (err error, pv any, panics bool, herr error) {
+	plain := fmt.Errorf("service %d fails to shut down", i)
+	switch kind {
+	case "nil":
+		return nil, nil, false, nil
+	case "err":
+		return plain, nil, false, nil
+	case "deadline":
+		return context.DeadlineExceeded, nil, false, nil
+	case "canceled":
+		return context.Canceled, nil, false, nil
+	case "wdeadline":
+		return fmt.Errorf("service %d: internal timeout: %w", i, context.DeadlineExceeded), nil, false, nil
+	case "wcanceled":
+		return fmt.Errorf("service %d: %w", i, context.Canceled), nil, false, nil
+	case "join":
+		return errors.Join(plain, context.DeadlineExceeded), nil, false, nil
+	case "eof":
+		return io.EOF, nil, false, nil
+	case "panic":
+		return nil, fmt.Sprintf("service %d panics in Shutdown", i), true, nil
+	case "panicerr":
+		return nil, plain, true, nil
+	case "panicdl":
+		return nil, context.DeadlineExceeded, true, nil
+	case "panicnil":
+		return nil, nil, true, nil // panic(nil): recover() yields *runtime.PanicNilError
+	}
+	return nil, nil, false, fmt.Errorf("harness: unknown outcome kind %q", kind)
 }
 
 // trySendLocked puts signals into the channel without blocking (what
@@ -185,9 +226,6 @@ type sigResult struct {
 // runSignal executes one scripted run of a real SignalHandler.
 func runSignal(r sigRun) (res sigResult) {
 	w := &sigWorld{outcome: r.Outcome, atCall: r.AtCall}
-	for i := range r.Outcome {
-		w.svcErr = append(w.svcErr, fmt.Errorf("service %d fails to shut down", i+1))
-	}
 	nt := &fakeNotifier{}
 	h := service.NewSignalHandler(&service.SignalHandlerConfig{
 		SignalNotifier:  nt,
@@ -472,6 +510,11 @@ func replaySignal(args []string) error {
 		if len(v.Outcome) != v.N {
 			return fmt.Errorf("bad vector: n=%d outcomes=%v", v.N, v.Outcome)
 		}
+		for _, k := range v.Outcome {
+			if _, _, _, herr := outcomeOf(k, 1); herr != nil {
+				return herr
+			}
+		}
 		i++
 		if v.N > 0 {
 			dd.Add(raw)
@@ -517,7 +560,7 @@ func recordSignal(args []string) error {
 	others := []string{"HUP", "USR1", "USR2", "WINCH", "CHLD", "PIPE", "ALRM", "CONT"}
 	shuts := []string{"INT", "QUIT", "TERM"}
 	all := append(append([]string{}, others...), shuts...)
-	outs := []string{"nil", "nil", "nil", "err", "panic"}
+	outs := append([]string{"nil", "nil", "nil", "nil", "nil", "err", "panic"}, allKinds...)
 	runs := make([]sigRun, nh)
 	for h := range runs {
 		n := rng.IntN(13)
